@@ -950,6 +950,17 @@ def propagate_copies(fn: ast.AST) -> bool:
             y = next(iter(ys))
             if x != y and x not in params and (stores.get(y, 0) == 1 or (y in params and stores.get(y, 0) == 0)) and x not in ren and y not in ren:
                 ren[x] = y
+    # `x = y` where x is bound only there and y is *read* only there (a result slot filled in several branches and then copied
+    # to its final name once): y is renamed to x
+    loads: dict[str, int] = {}
+    for n in ast.walk(fn):
+        if isinstance(n, ast.Name) and isinstance(n.ctx, ast.Load):
+            loads[n.id] = loads.get(n.id, 0) + 1
+    for x, ys in copies.items():
+        if len(ys) == 1 and ncopy[x] == 1 and stores.get(x) == 1 and x not in params and x not in ren:
+            y = next(iter(ys))
+            if y != x and y not in params and loads.get(y, 0) == 1 and y not in ren and y not in ren.values() and stores.get(y, 0) >= 2:
+                ren[y] = x
     if not ren:
         return False
     # resolve chains
